@@ -44,6 +44,28 @@ func withSkew(base func(*rapid.T) WorldSpec) func(*rapid.T) WorldSpec {
 	}
 }
 
+// withPoolPricedElys: in a third of the worlds the native token has no oracle feed (the situation on the live chain):
+// its price everywhere – order triggers, reward valuation, portfolio tiers, fee conversion – is the spot price of the
+// constant-product ELYS/USDC pool, which moves with every swap.
+func withPoolPricedElys(base func(*rapid.T) WorldSpec) func(*rapid.T) WorldSpec {
+	return func(t *rapid.T) WorldSpec {
+		spec := base(t)
+		if UniformDraw(t, "poolpricedelys", 3) == 0 {
+			hasPool := false
+			for _, p := range spec.Pools {
+				if !p.UseOracle && ((p.Denoms[0] == paramtypes.Elys && p.Denoms[1] == paramtypes.BaseCurrency) || (p.Denoms[1] == paramtypes.Elys && p.Denoms[0] == paramtypes.BaseCurrency)) {
+					hasPool = true
+				}
+			}
+			if hasPool {
+				delete(spec.Prices, "ELYS")
+				spec.Scenario.PoolPricedElys = true
+			}
+		}
+		return spec
+	}
+}
+
 // withBurner: in half of the worlds the burner module is live (its epoch is one the chain really runs) and two or three of the
 // funded denoms have bank metadata, so that what users send to the zero address is really burnt.
 func withBurner(base func(*rapid.T) WorldSpec) func(*rapid.T) WorldSpec {
@@ -662,7 +684,7 @@ func c20Gov(h *History, g *G) []EnvAction {
 
 var ProfileC20 = &Profile{
 	MultiMsg: true,
-	ID:       "C20", Name: "tradeshield", MinBlocks: 6, MaxBlocks: 40, MaxTxs: 4, Spec: specDefault, Check: CheckC20, ExtraOps: c20ExtraOps, Filter: c20Filter, PreBlock: c20Gov,
+	ID:       "C20", Name: "tradeshield", MinBlocks: 6, MaxBlocks: 40, MaxTxs: 4, Spec: withPoolPricedElys(specDefault), Check: CheckC20, ExtraOps: c20ExtraOps, Filter: c20Filter, PreBlock: c20Gov,
 	Weights: map[string]int{"tradeshield.execute": 14, "oracle.feed_price": 10, "amm.swap_in": 5, "amm.swap_out": 3, "perpetual.open": 3, "perpetual.close": 2, "amm.join": 2, "amm.exit": 2, "stablestake.bond": 1},
 	Gaps:    []time.Duration{time.Second, 5 * time.Second, 6 * time.Second, time.Hour + time.Second},
 	Rule:    "history with an execution request that left a named order pending (skipped or failed attempt) followed later by the owner's cancel of that order, and >=1 executed order",
